@@ -53,7 +53,14 @@ func VerifC05Cond() {
 		nm := "b" + string(rune('0'+i))
 		k := vKey{p: nm}
 		attrs := map[string]string{"v": nd.StringN(nm+".v", 1), "w": "x"}
-		nd.Assert(vPut(c, m.full(k, attrs)) == nil, "C05-setup-put")
+		if nd.Choice(nm+".created-by-update", 2) == 1 {
+			// reachable states include items that an UpdateItem on an absent key created
+			_, err := c.UpdateItem(vCtx, &dynamodb.UpdateItemInput{TableName: aws.String(vTbl), Key: k.item(false),
+				UpdateExpression: aws.String("SET v = :v, w = :w"), ExpressionAttributeValues: vItem{":v": vS(attrs["v"]), ":w": vS("x")}})
+			nd.Assert(err == nil, "C05-setup-upsert")
+		} else {
+			nd.Assert(vPut(c, m.full(k, attrs)) == nil, "C05-setup-put")
+		}
 		m.put(k, attrs)
 	}
 	before := vScanAll(c)
